@@ -472,7 +472,12 @@ def mk_validator(ctx: Ctx, d: dict, env: List[Any]) -> Any:
         co = mk_coerce(ctx, d.get("coerce"))
         if co is not _UNSET:
             kw["coerce"] = co
-        v = NTupleValidator.untyped(**kw) if d.get("untyped") else NTupleValidator(**kw)
+        if d.get("untyped"):
+            v = NTupleValidator.untyped(**kw)
+        elif 1 <= len(fields) <= 8 and d.get("vid", 0) % 3 != 0:
+            v = NTupleValidator.typed(**kw)
+        else:
+            v = NTupleValidator(**kw)
         ctx.pid[id(v._len_predicate)] = d["lenPid"]
     elif k == "map":
         preds = [mk_pred(ctx, p) for p in d["preds"]] if d.get("preds") is not None else None
@@ -483,7 +488,12 @@ def mk_validator(ctx: Ctx, d: dict, env: List[Any]) -> Any:
         v = mk_record(ctx, d, env)
     elif k == "union":
         vs = [mk_validator(ctx, x, env) for x in d["vs"]]
-        v = UnionValidator.untyped(*vs) if d.get("untyped") else UnionValidator(*vs)
+        if d.get("untyped"):
+            v = UnionValidator.untyped(*vs)
+        elif 1 <= len(vs) <= 8 and d.get("vid", 0) % 3 != 0:
+            v = UnionValidator.typed(*vs)      # the public, arity-overloaded constructor
+        else:
+            v = UnionValidator(*vs)
     elif k == "optional":
         inner = mk_validator(ctx, d["inner"], env)
         if d["noneV"]["vid"] == DEFAULT_NONE_VID:
